@@ -210,6 +210,8 @@ func failureContract(p gopacket.Packet, failed, knowFailed bool) string {
 	return ""
 }
 
+// dataBlock identifies the backing array of a packet's data by the address of its first byte
+// (nil for an empty packet whose slice has no capacity: nothing to alias).
 func dataBlock(p gopacket.Packet) *byte {
 	d := p.Data()
 	d = d[:cap(d)]
@@ -291,7 +293,12 @@ func doNew(sn, opts int, first string, k int, real bool) string {
 	failed := tab.sawPanic || tab.sawErr || (!real && first == "nil")
 	if real {
 		failed = twinTr.topFailed
-		s.cmpLazy = len(buf) > 0 && twinTr.disciplined()
+		s.cmpLazy = len(buf) > 0 // real decoders: lazy is always compared with eager (C03 quantifies over them)
+		if twinTr.disciplined() {
+			lib.Stat("real:trace-in-D")
+		} else {
+			lib.Stat("real:trace-not-in-D")
+		}
 		twinTr.report()
 	} else {
 		s.cmpLazy = len(buf) > 0 && tab.inD() && first != "nil" // a nil first decoder is not a layer type (outside C03)
@@ -351,13 +358,15 @@ func doNew(sn, opts int, first string, k int, real bool) string {
 	case isPooled:
 		s.mem, s.pooled = "pool", true
 		s.blk = dataBlock(p)
-		if prev, dup := liveBlks[s.blk]; dup {
-			lib.Finding("C04", "pkt:pool-alias", fmt.Sprintf("pooled packets in slots %d and %d share a block", prev, sn))
+		if s.blk != nil {
+			if prev, dup := liveBlks[s.blk]; dup {
+				lib.Finding("C04", "pkt:pool-alias", fmt.Sprintf("pooled packets in slots %d and %d share a block", prev, sn))
+			}
+			liveBlks[s.blk] = sn
 		}
-		liveBlks[s.blk] = sn
-	case len(buf) > 0 && &p.Data()[0] == &buf[0]:
-		s.mem = "alias"
-	case len(buf) == 0 && cap(p.Data()) == cap(buf):
+	case len(buf) == 0:
+		s.mem = "-" // nothing to observe: an empty slice aliases nothing
+	case &p.Data()[0] == &buf[0]:
 		s.mem = "alias"
 	default:
 		s.mem = "copy"
@@ -603,6 +612,9 @@ func doAcc(sn int, rest []string) string {
 			who := "scripted"
 			if s.real {
 				who = s.first
+				if n, ok := lib.Atoi(s.first); ok {
+					who = gopacket.LayerType(n).String()
+				}
 			}
 			mode := "eager"
 			if s.lazy {
@@ -742,6 +754,33 @@ func exec(a []string) string {
 		s.p.(gopacket.PooledPacket).Dispose()
 		lib.Stat("dispose")
 		return "ok"
+	case "rnewx":
+		// real decoders under a non-default option set: implementation-side comparison only (C04);
+		// the model cannot follow a real decoder that reads past len, so it only predicts the memory kind
+		if len(a) != 5 {
+			return "bad-op"
+		}
+		o, ok2 := lib.Atoi(a[2])
+		k, ok3 := lib.Atoi(a[4])
+		if !ok2 || !ok3 || o < 0 || k < 0 {
+			return "bad-op"
+		}
+		const tmp = 1 << 20
+		r := doNew(tmp, o, a[3], k, true)
+		s := slots[tmp]
+		if s == nil || !s.built {
+			delete(slots, tmp)
+			return r
+		}
+		for _, acc := range [][]string{{"link"}, {"err"}, {"layers"}, {"string"}} {
+			doAcc(tmp, acc)
+		}
+		if s.pooled {
+			delete(liveBlks, s.blk)
+			s.p.(gopacket.PooledPacket).Dispose()
+		}
+		delete(slots, tmp)
+		return "ok mem=" + s.mem
 	case "conc":
 		return doConc(a[2:])
 	}
